@@ -11,6 +11,7 @@
   `C24_*_spec` (Proofs/RelSpec.lean): what the specifications say in terms of `List` functions.
 -/
 import PvModel.Proofs.RelSpec
+import PvModel.Proofs.RelComplete
 namespace Pv
 open Strm Goal State Term
 
@@ -87,6 +88,95 @@ theorem C24_member1_spec (x : Term) (xs : List Term) : Mem1T x (ofList xs) ↔ x
 theorem C24_rember_spec (x : Term) (xs : List Term) (out : Term) : RemT x (ofList xs) out ↔ out = ofList (xs.erase x) :=
   remT_ofList x xs out
 theorem C24_distinct_spec (l : Term) : DistT l ↔ ∃ xs : List Term, l = ofList xs ∧ xs.Nodup := distT_iff l
+
+/-! ### completeness -/
+
+/-- COMPLETENESS, all six relations, all argument modes: from a good unpoisoned state that says nothing about the
+    variables at or above its counter (`RInv`: the empty state, and every state `==`/`!=` goals reach from it —
+    `C24_invariant`), with argument terms below the counter: every valuation `γ` the state describes under which
+    the arguments are in the documented relation is described — after extension to the fresh variables of the
+    unfolding, i.e. up to `Agree a.nextVar` — by a state in the engine's stream for the call, at every nesting
+    level, interleaving or depth-first variant, any hash order; or the model ran out of unification fuel, which
+    leaves a FUEL-poisoned state in the stream. -/
+theorem C24_complete (ord : Order) (ho : OrderOK ord) (pf M j : Nat) (c : Call) (a : State) (γ : Subst)
+    (hb : ∀ t ∈ c.args, Below a.nextVar t) (hp : a.panic.isSome = false) (hi : RInv a) (hγ : StateSem γ a)
+    (h : RelSem c γ) :
+    ∃ b, MemS (solveAt (defs ord) pf (M + 1)) b (solveAt (defs ord) pf j (.call c) a) ∧
+      (b.panic.isSome = true ∨ ∃ γ', Agree a.nextVar γ γ' ∧ StateSem γ' b) :=
+  rel_complete ho pf M j c a γ hb hp hi hγ h
+
+/-- the invariant: the empty state has it, `==`/`!=` over existing variables keep it (and the counter) -/
+theorem C24_invariant (ord : Order) (ho : OrderOK ord) :
+    (∀ n, RInv (State.empty n)) ∧
+    (∀ (u v : Term) (a b : State), Below a.nextVar u → Below a.nextVar v → RInv a →
+      (a.unify ord u v = .ok b ∨ a.disunify ord u v = .ok b) → RInv b ∧ b.nextVar = a.nextVar) :=
+  ⟨rinv_empty, fun u v a b bu bv hi h => by
+    rcases h with h | h
+    · exact rinv_postAtom ho (.eq u v) ⟨bu, bv⟩ hi h
+    · exact rinv_postAtom ho (.neq u v) ⟨bu, bv⟩ hi h⟩
+
+/-- SOUND + COMPLETE = EXACT: for a call from such a state, the valuations described by the unpoisoned states of
+    the engine's stream, seen on the variables below the counter, are exactly the valuations of the start state
+    under which the arguments are in the relation (when no state of the stream is FUEL-poisoned) -/
+theorem C24_exact (ord : Order) (ho : OrderOK ord) (pf M j : Nat) (c : Call) (a : State) (γ : Subst)
+    (hb : ∀ t ∈ c.args, Below a.nextVar t) (hp : a.panic.isSome = false) (hi : RInv a) (hγ : StateSem γ a)
+    (hnf : ∀ b, MemS (solveAt (defs ord) pf (M + 1)) b (solveAt (defs ord) pf j (.call c) a) → b.panic.isSome = false) :
+    RelSem c γ ↔ ∃ b γ', MemS (solveAt (defs ord) pf (M + 1)) b (solveAt (defs ord) pf j (.call c) a) ∧
+      Agree a.nextVar γ γ' ∧ StateSem γ' b := by
+  constructor
+  · intro h
+    obtain ⟨b, hm, hb'⟩ := C24_complete ord ho pf M j c a γ hb hp hi hγ h
+    rcases hb' with p | ⟨γ', hag, sb⟩
+    · rw [hnf b hm] at p; cases p
+    · exact ⟨b, γ', hm, hag, sb⟩
+  · rintro ⟨b, γ', hm, hag, sb⟩
+    have h1 := ((C24_sound ord ho pf M j c a b hm (hnf b hm) hi.1).2 γ' sb).2
+    -- the relation only looks at the arguments, whose variables are below the counter
+    obtain ⟨rel, args, d⟩ := c
+    have ea : ∀ t ∈ args, apply γ t = apply γ' t := fun t ht => apply_of_agree (hb t ht) hag
+    cases rel <;> rcases args with _ | ⟨a1, _ | ⟨a2, _ | ⟨a3, _ | ⟨a4, rest⟩⟩⟩⟩ <;> simp only [RelSem] at h1 ⊢ <;>
+      first
+        | exact h1
+        | (rw [ea a1 (by simp)]; exact h1)
+        | (rw [ea a1 (by simp), ea a2 (by simp)]; exact h1)
+        | (rw [ea a1 (by simp), ea a2 (by simp), ea a3 (by simp)]; exact h1)
+
+/-- `append`, list level: if under a described valuation `l` is the proper list `xs` and `ls` is `xs` followed
+    by `s`, the stream holds a state describing it -/
+theorem C24_append_complete (ord : Order) (ho : OrderOK ord) (pf M j : Nat) (l s ls : Term) (d : Bool) (a : State) (γ : Subst)
+    (bl : Below a.nextVar l) (bs : Below a.nextVar s) (bls : Below a.nextVar ls) (hp : a.panic.isSome = false) (hi : RInv a)
+    (hγ : StateSem γ a) (xs : List Term) (h1 : apply γ l = ofList xs) (h2 : apply γ ls = improperOfList xs (apply γ s)) :
+    ∃ b, MemS (solveAt (defs ord) pf (M + 1)) b (solveAt (defs ord) pf j (.call ⟨.append, [l, s, ls], d⟩) a) ∧
+      (b.panic.isSome = true ∨ ∃ γ', Agree a.nextVar γ γ' ∧ StateSem γ' b) :=
+  C24_complete ord ho pf M j _ a γ
+    (fun t ht => by
+      simp only [List.mem_cons, List.not_mem_nil, or_false] at ht
+      rcases ht with rfl | rfl | rfl <;> assumption)
+    hp hi hγ ((appT_iff _ _ _).2 ⟨xs, h1, h2⟩)
+
+/-- `member`, list level: if under a described valuation `x` is an element of the proper list `l` -/
+theorem C24_member_complete (ord : Order) (ho : OrderOK ord) (pf M j : Nat) (x l : Term) (d : Bool) (a : State) (γ : Subst)
+    (bx : Below a.nextVar x) (bl : Below a.nextVar l) (hp : a.panic.isSome = false) (hi : RInv a)
+    (hγ : StateSem γ a) (xs : List Term) (h1 : apply γ l = ofList xs) (h2 : apply γ x ∈ xs) :
+    ∃ b, MemS (solveAt (defs ord) pf (M + 1)) b (solveAt (defs ord) pf j (.call ⟨.member, [x, l], d⟩) a) ∧
+      (b.panic.isSome = true ∨ ∃ γ', Agree a.nextVar γ γ' ∧ StateSem γ' b) :=
+  C24_complete ord ho pf M j _ a γ
+    (fun t ht => by
+      simp only [List.mem_cons, List.not_mem_nil, or_false] at ht
+      rcases ht with rfl | rfl <;> assumption)
+    hp hi hγ (by simp only [RelSem]; rw [h1]; exact (memT_ofList _ _).2 h2)
+
+/-- `permute`, list level: every permutation of a proper list is found -/
+theorem C24_permute_complete (ord : Order) (ho : OrderOK ord) (pf M j : Nat) (xl yl : Term) (d : Bool) (a : State) (γ : Subst)
+    (bx : Below a.nextVar xl) (by' : Below a.nextVar yl) (hp : a.panic.isSome = false) (hi : RInv a)
+    (hγ : StateSem γ a) (xs ys : List Term) (h1 : apply γ xl = ofList xs) (h2 : apply γ yl = ofList ys) (h : xs.Perm ys) :
+    ∃ b, MemS (solveAt (defs ord) pf (M + 1)) b (solveAt (defs ord) pf j (.call ⟨.permute, [xl, yl], d⟩) a) ∧
+      (b.panic.isSome = true ∨ ∃ γ', Agree a.nextVar γ γ' ∧ StateSem γ' b) :=
+  C24_complete ord ho pf M j _ a γ
+    (fun t ht => by
+      simp only [List.mem_cons, List.not_mem_nil, or_false] at ht
+      rcases ht with rfl | rfl <;> assumption)
+    hp hi hγ (by simp only [RelSem]; rw [h1, h2]; exact permT_of_perm xs ys h)
 
 section Examples
 /-- non-vacuity: `append([1], y, [1, 2])` from the empty state — the engine (interleaving, nesting level 2)
